@@ -96,12 +96,16 @@ struct W { uint8_t b[MAXSER]; int n = 0; };
 static void put(W& w, uint8_t x) { w.b[w.n++] = x; }
 static void le(W& w, uint64_t x, int bytes) { for (int i = 0; i < bytes; i++) put(w, (uint8_t)(x >> (8 * i))); }
 static void cs(W& w, uint64_t n) { if (n < 0xFD) put(w, (uint8_t)n); else if (n <= 0xFFFF) { put(w, 0xFD); le(w, n, 2); } else if (n <= 0xFFFFFFFFULL) { put(w, 0xFE); le(w, n, 4); } else { put(w, 0xFF); le(w, n, 8); } }
-static void ref_ser(const Desc& d, W& w, bool extended)
+// knobs used only by h_tx_malformed to build deliberately ill-formed streams
+enum { D_NONE = 0, D_NONCANON_VIN, D_NONCANON_SCRIPT, D_HUGE_VOUT };   // deliberate defects (h_tx_malformed only)
+static void ref_ser(const Desc& d, W& w, bool extended, int flag = 1, int defect = D_NONE)
 {
     le(w, d.version, 4);
-    if (extended) { put(w, 0x00); put(w, 0x01); }
+    if (extended) { put(w, 0x00); put(w, (uint8_t)flag); }
+    if (defect == D_NONCANON_VIN) { put(w, 0xFD); le(w, NIN, 2); } else
     cs(w, NIN);
-    for (int i = 0; i < NIN; i++) { for (int k = 0; k < 32; k++) put(w, d.prevhash[i][k]); le(w, d.previdx[i], 4); cs(w, SSLEN); for (int k = 0; k < SSLEN; k++) put(w, d.ss[i][k]); le(w, d.seq[i], 4); }
+    for (int i = 0; i < NIN; i++) { for (int k = 0; k < 32; k++) put(w, d.prevhash[i][k]); le(w, d.previdx[i], 4); if (defect == D_NONCANON_SCRIPT && i == 0) { put(w, 0xFD); le(w, SSLEN, 2); } else cs(w, SSLEN); for (int k = 0; k < SSLEN; k++) put(w, d.ss[i][k]); le(w, d.seq[i], 4); }
+    if (defect == D_HUGE_VOUT) { put(w, 0xFE); le(w, 0x02000001ULL, 4); } else
     cs(w, NOUT);
     for (int i = 0; i < NOUT; i++) { le(w, (uint64_t)d.value[i], 8); cs(w, PKLEN); for (int k = 0; k < PKLEN; k++) put(w, d.pk[i][k]); }
     if (extended) for (int i = 0; i < NIN; i++) {
@@ -203,5 +207,65 @@ extern "C" void h_tx_ids()
     VASSERT(tx.GetWitnessHash().ToUint256() == tx.GetHash().ToUint256(), "wtxid == txid for a transaction without witness");
 #endif
     verif_observe(g_nmsg); verif_observe(m1);
+    VREACH("end");
+}
+
+// ill-formed / ambiguous streams (concrete structure, symbolic payload): the decoder must reject them, or decode them as the format says
+#ifndef KIND
+#define KIND 1
+#endif
+#ifndef CUT
+#define CUT 1
+#endif
+extern "C" void h_tx_malformed()
+{
+    Desc d; draw(d);
+    W w;
+#ifndef FLAG
+#define FLAG 1
+#endif
+#if KIND == 1          // flag byte FLAG in an extended stream that carries a witness (needs WMASK != 0)
+    const uint8_t f = FLAG; ref_ser(d, w, true, f);   // concrete per variant: a symbolic flag makes the decoder's vector sizes symbolic (out of reach)
+#elif KIND == 2        // extended form although every witness stack is empty (needs WMASK == 0)
+    ref_ser(d, w, true);
+#elif KIND == 3        // non-canonical txin_count
+    ref_ser(d, w, WMASK != 0, 1, D_NONCANON_VIN);
+#elif KIND == 4        // non-canonical script length
+    ref_ser(d, w, WMASK != 0, 1, D_NONCANON_SCRIPT);
+#elif KIND == 5        // txout_count above MAX_SIZE
+    ref_ser(d, w, WMASK != 0, 1, D_HUGE_VOUT);
+#elif KIND == 6        // truncated by CUT bytes
+    ref_ser(d, w, WMASK != 0); w.n -= CUT;
+#endif
+    DataStream ds{std::span<const uint8_t>(w.b, (size_t)w.n)};
+    bool threw = false; CMutableTransaction r;
+    try { ds >> TX_WITH_WITNESS(r); } catch (const std::ios_base::failure&) { threw = true; }
+    verif_observe(threw);
+#if KIND == 1
+    // documented format: flags != 0 marks the extended form, bit 0 = witness data present, no other flag is defined;
+    // [00][00] is the basic form of a transaction with no inputs and no outputs (lock time follows immediately)
+    if (f == 1) { VASSERT(!threw && same_tx(d, r, true) && ds.empty(), "flag 0x01: the witness-carrying transaction is decoded"); }
+    else if (f == 0) {
+        VASSERT(!threw && r.vin.empty() && r.vout.empty(), "[00][00]: basic form of the empty transaction");
+        if (!threw) {
+            uint32_t lt = 0; for (int i = 0; i < 4; i++) lt |= (uint32_t)w.b[6 + i] << (8 * i);
+            VASSERT(r.nLockTime == lt && r.version == d.version && ds.size() == (size_t)(w.n - 10), "empty transaction: lock time is the next 4 bytes, the rest is left in the stream");
+        }
+    } else VASSERT(threw, "undefined flag bits are rejected");
+    VWITNESS(threw == (f > 1), "expected outcome reachable");
+#elif KIND == 2
+    VASSERT(threw, "superfluous witness record (extended form with only empty witness stacks) is rejected");
+#elif KIND == 3
+    VASSERT(threw, "non-canonical txin_count is rejected");
+#elif KIND == 4
+    VASSERT(threw, "non-canonical script length is rejected");
+#elif KIND == 5
+    VASSERT(threw, "txout_count above MAX_SIZE is rejected");
+#elif KIND == 6
+    VASSERT(threw, "truncated stream is rejected");
+#endif
+#if KIND != 1
+    VWITNESS(threw, "rejection reachable");
+#endif
     VREACH("end");
 }
